@@ -366,7 +366,171 @@ Proof.
   repeat dt_step H; eapply parse_tail_in_range; eassumption.
 Qed.
 
+(* ------------------------------------------------------------------ *)
+(* Roundtrip                                                           *)
+
+Lemma expect_char_cons : forall c s, expect_char (c :: s) c = Some s.
+Proof. intros c s. unfold expect_char. rewrite Z.eqb_refl. reflexivity. Qed.
+
+Lemma parse_tail_print : forall y m d hh mi ss ms total,
+  1 <= m <= 12 -> 1 <= d <= days_in_month y m ->
+  0 <= hh <= 23 -> 0 <= mi <= 59 -> 0 <= ss <= 59 -> 0 <= ms <= 999 ->
+  total = days_from_civil y m d * MillisPerDay + hh * MillisPerHour + mi * MillisPerMinute
+          + ss * MillisPerSecond + ms ->
+  in_dt_range total = true ->
+  parse_tail y (45 :: print_padded 2 m ++ 45 :: print_padded 2 d ++ 84 :: print_padded 2 hh
+                ++ 58 :: print_padded 2 mi ++ 58 :: print_padded 2 ss ++ 46 :: print_padded 3 ms ++ [90])
+  = Some total.
+Proof.
+  intros y m d hh mi ss ms total Hm Hd Hhh Hmi Hss Hms Htot Hr.
+  pose proof (days_in_month_le31 y m) as H31.
+  assert (Hchk : (m <? 1) || (d <? 1) || (d >? days_in_month y m) = false).
+  { destruct (Z.ltb_spec m 1); [lia|]. destruct (Z.ltb_spec d 1); [lia|].
+    destruct (Z.gtb_spec d (days_in_month y m)); [lia|]. reflexivity. }
+  unfold parse_tail.
+  rewrite expect_char_cons. cbn [bind].
+  rewrite take_uint_padded by (try (change (10 ^ Z.of_nat 2) with 100); lia). cbn [bind].
+  rewrite expect_char_cons. cbn [bind].
+  rewrite take_uint_padded by (try (change (10 ^ Z.of_nat 2) with 100); lia). cbn [bind].
+  rewrite Hchk.
+  rewrite expect_char_cons. cbn [bind].
+  rewrite take_uint_padded by (try (change (10 ^ Z.of_nat 2) with 100); lia). cbn [bind].
+  rewrite expect_char_cons. cbn [bind].
+  rewrite take_uint_padded by (try (change (10 ^ Z.of_nat 2) with 100); lia). cbn [bind].
+  rewrite expect_char_cons. cbn [bind].
+  rewrite take_uint_padded by (try (change (10 ^ Z.of_nat 2) with 100); lia). cbn [bind].
+  rewrite take_uint_padded by (try (change (10 ^ Z.of_nat 3) with 1000); lia). cbn [bind].
+  change (90 =? 90) with true. cbn [bind].
+  replace (days_from_civil y m d * MillisPerDay + hh * MillisPerHour + mi * MillisPerMinute
+           + ss * MillisPerSecond + ms - 0) with total by lia.
+  rewrite Hr. reflexivity.
+Qed.
+
+Lemma print_datetime_eq : forall z y m d, civil_from_days (z / MillisPerDay) = (y, m, d) ->
+  print_datetime z =
+  (if (0 <=? y) && (y <=? 9999) then print_padded 4 y
+   else (if y <? 0 then 45 else 43) :: print_padded 9 (Z.abs y))
+  ++ 45 :: print_padded 2 m ++ 45 :: print_padded 2 d
+  ++ 84 :: print_padded 2 (z mod MillisPerDay / MillisPerHour)
+  ++ 58 :: print_padded 2 ((z mod MillisPerDay) mod MillisPerHour / MillisPerMinute)
+  ++ 58 :: print_padded 2 ((z mod MillisPerDay) mod MillisPerMinute / MillisPerSecond)
+  ++ 46 :: print_padded 3 ((z mod MillisPerDay) mod MillisPerSecond) ++ [90].
+Proof. intros z y m d E. unfold print_datetime. cbv zeta. rewrite E. reflexivity. Qed.
+
+Lemma civil_year_bound : forall days y m d,
+  -106751991168 <= days <= 106751991167 -> civil_from_days days = (y, m, d) ->
+  -999999999 <= y <= 999999999.
+Proof.
+  intros days y m d Hdays E.
+  pose (era := (days + 719468) / 146097). pose (doe := days + 719468 - era * 146097).
+  assert (Hdoe : 0 <= doe < 146097) by (subst doe era; dlia).
+  destruct (doe_civil doe) as [[yoe m2] d2] eqn:E2.
+  rewrite (civil_from_days_eq2 days era doe yoe m2 d2 eq_refl eq_refl E2) in E.
+  destruct (check_doe_spec doe yoe m2 d2 Hdoe E2) as (Hy & _).
+  assert (Hera : -800000 <= era <= 800000) by (subst era; dlia).
+  injection E as Ey Em Ed. clear - Ey Hy Hera. destruct (m2 <=? 2); lia.
+Qed.
+
+Lemma parse_datetime_year4 : forall y rest, 0 <= y <= 9999 ->
+  parse_datetime (print_padded 4 y ++ rest) = parse_tail y rest.
+Proof.
+  intros y rest Hy.
+  assert (Hy' : 0 <= y < 10 ^ Z.of_nat 4) by (change (10 ^ Z.of_nat 4) with 10000; lia).
+  destruct (dt_parse_print_padded 4 y Hy' ltac:(lia)) as (Hlen & _ & Hall).
+  pose proof (take_uint_padded 4 y 9999 rest Hy' ltac:(lia) ltac:(lia)) as Ht.
+  destruct (print_padded 4 y) as [|c tl] eqn:Ep; [discriminate Hlen|].
+  inversion Hall as [|c' tl' Hc Htl]; subst c' tl'.
+  rewrite <- app_comm_cons in *. rewrite parse_datetime_unfold, Hc, Ht.
+  unfold is_digit in Hc. apply andb_prop in Hc. destruct Hc as [Hc1 Hc2].
+  apply Z.leb_le in Hc1.
+  destruct (Z.eqb_spec c 43) as [Hc43|_]; [lia|]. destruct (Z.eqb_spec c 45) as [Hc45|_]; [lia|].
+  cbn [bind]. rewrite Z.mul_1_r. reflexivity.
+Qed.
+
+Lemma parse_datetime_year_neg : forall y rest, -999999999 <= y < 0 ->
+  parse_datetime ((45 :: print_padded 9 (Z.abs y)) ++ rest) = parse_tail y rest.
+Proof.
+  intros y rest Hy. rewrite <- app_comm_cons, parse_datetime_unfold.
+  change (45 =? 43) with false. change (45 =? 45) with true. cbv iota.
+  rewrite take_uint_padded by (try (change (10 ^ Z.of_nat 9) with 1000000000); lia).
+  cbn [bind]. replace (Z.abs y * -1) with y by lia. reflexivity.
+Qed.
+
+Lemma parse_datetime_year_pos : forall y rest, 9999 < y <= 999999999 ->
+  parse_datetime ((43 :: print_padded 9 (Z.abs y)) ++ rest) = parse_tail y rest.
+Proof.
+  intros y rest Hy. rewrite <- app_comm_cons, parse_datetime_unfold.
+  change (43 =? 43) with true. cbv iota.
+  rewrite take_uint_padded by (try (change (10 ^ Z.of_nat 9) with 1000000000); lia).
+  cbn [bind]. replace (Z.abs y * 1) with y by lia. reflexivity.
+Qed.
+
+Theorem datetime_roundtrip : forall z, in_dt_range z = true -> parse_datetime (print_datetime z) = Some z.
+Proof.
+  intros z Hr.
+  assert (Hz : min64 + 86400000 <= z <= max64).
+  { unfold in_dt_range, min_datetime_bound in Hr. apply andb_prop in Hr. destruct Hr as [H1 H2].
+    apply Z.leb_le in H1. apply Z.leb_le in H2. lia. }
+  destruct (civil_from_days (z / MillisPerDay)) as [[y m] d] eqn:E.
+  pose proof (civil_from_days_valid (z / MillisPerDay)) as Hv. rewrite E in Hv. destruct Hv as [Hm Hd].
+  pose proof (civil_inverse (z / MillisPerDay)) as Hi. rewrite E in Hi.
+  assert (Hyb : -999999999 <= y <= 999999999).
+  { apply (civil_year_bound (z / MillisPerDay) y m d); [|exact E].
+    change MillisPerDay with 86400000. unfold min64, max64, two63 in Hz. dlia. }
+  rewrite (print_datetime_eq z y m d E).
+  assert (Htail : forall rest,
+    rest = 45 :: print_padded 2 m ++ 45 :: print_padded 2 d
+      ++ 84 :: print_padded 2 (z mod MillisPerDay / MillisPerHour)
+      ++ 58 :: print_padded 2 ((z mod MillisPerDay) mod MillisPerHour / MillisPerMinute)
+      ++ 58 :: print_padded 2 ((z mod MillisPerDay) mod MillisPerMinute / MillisPerSecond)
+      ++ 46 :: print_padded 3 ((z mod MillisPerDay) mod MillisPerSecond) ++ [90] ->
+    parse_tail y rest = Some z).
+  { intros rest ->. apply parse_tail_print; try assumption; rewrite ?Hi;
+    change MillisPerDay with 86400000; change MillisPerHour with 3600000;
+    change MillisPerMinute with 60000; change MillisPerSecond with 1000; dlia. }
+  destruct (Z.leb_spec 0 y) as [Hy0|Hy0]; cbn [andb].
+  - destruct (Z.leb_spec y 9999) as [Hy1|Hy1].
+    + rewrite parse_datetime_year4 by lia. apply Htail. reflexivity.
+    + destruct (Z.ltb_spec y 0) as [Hy2|_]; [lia|].
+      rewrite parse_datetime_year_pos by lia. apply Htail. reflexivity.
+  - destruct (Z.ltb_spec y 0) as [_|Hy2]; [|lia].
+    rewrite parse_datetime_year_neg by lia. apply Htail. reflexivity.
+Qed.
+
+(* ------------------------------------------------------------------ *)
+(* Examples                                                            *)
+
+From Coq Require Import String.
+
+Example ex_print_epoch : print_datetime 0 = s_of "1970-01-01T00:00:00.000Z"%string.
+Proof. vm_compute. reflexivity. Qed.
+Example ex_print_minus1 : print_datetime (-1) = s_of "1969-12-31T23:59:59.999Z"%string.
+Proof. vm_compute. reflexivity. Qed.
+Example ex_print_max : print_datetime max64 = s_of "+292278994-08-17T07:12:55.807Z"%string.
+Proof. vm_compute. reflexivity. Qed.
+Example ex_print_min : print_datetime min64 = s_of "-292275055-05-16T16:47:04.192Z"%string.
+Proof. vm_compute. reflexivity. Qed.
+Example ex_roundtrip_max : parse_datetime (print_datetime max64) = Some max64.
+Proof. vm_compute. reflexivity. Qed.
+Example ex_roundtrip_minbound :
+  parse_datetime (print_datetime (min64 + 86400000)) = Some (min64 + 86400000).
+Proof. vm_compute. reflexivity. Qed.
+(* known defect (F27): the smallest int64 datetimes print but do not parse back *)
+Example ex_defect_min : parse_datetime (print_datetime min64) = None.
+Proof. vm_compute. reflexivity. Qed.
+Example ex_defect_below_bound : parse_datetime (print_datetime (min64 + 86399999)) = None.
+Proof. vm_compute. reflexivity. Qed.
+Example ex_parse_date_only : parse_datetime (s_of "2024-02-29"%string) = Some 1709164800000.
+Proof. vm_compute. reflexivity. Qed.
+Example ex_parse_bad_day : parse_datetime (s_of "2023-02-29"%string) = None.
+Proof. vm_compute. reflexivity. Qed.
+Example ex_parse_offset :
+  parse_datetime (s_of "1970-01-01T01:00:00+0100"%string) = Some 0.
+Proof. vm_compute. reflexivity. Qed.
+
 Print Assumptions civil_from_days_valid.
 Print Assumptions civil_inverse.
 Print Assumptions days_from_civil_inverse.
+Print Assumptions datetime_roundtrip.
 Print Assumptions datetime_parse_in_range.
+Print Assumptions dt_parse_print_padded.
